@@ -161,7 +161,8 @@ def _w_machine(rng) -> dict:
     cids: Dict[tuple, str] = {}
     for p in paths:
         if rng.random() < 0.25:
-            cids[tuple(p)] = "id_" + "_".join(p)
+            # (half of the custom ids merely START with the machine id "m": `#mx_a` is a custom id, not a path below the root)
+            cids[tuple(p)] = ("id_" if rng.random() < 0.5 else "mx_") + "_".join(p)
     real_paths = list(paths)
 
     def node_of(p):
